@@ -328,6 +328,11 @@ func (d *Def) getMethodNameAndSetIsStatic(
 	if t.IsTargetIdentifier("self") {
 		ctx.IsDefineStatic = true
 
+		// a private/protected section of the class body is about the instance
+		// methods defined after it: `def self.x` stays public
+		ctx.EndPrivate()
+		ctx.EndProtected()
+
 		t, err = p.ReadTwice()
 		if err != nil {
 			return "", err
@@ -396,6 +401,10 @@ func (d *Def) getMethodNameAndSetIsStatic(
 	if method == "initialize" {
 		method = "new"
 		ctx.IsDefineStatic = true
+
+		// (and so does `new`, wherever initialize is written)
+		ctx.EndPrivate()
+		ctx.EndProtected()
 	}
 
 	return method, nil
@@ -496,6 +505,12 @@ func (d *Def) endlessDefinition(
 	methodT := d.makeDefineMethodT(p, ctx, method, args, returnT, false)
 
 	d.setDefineMethodT(p, ctx, methodT, defineRow)
+
+	// the signature hint, as for a method with a body (it ends on the row it
+	// starts on or wherever its expression ends)
+	if ctx.IsCheckRound() {
+		d.setDefineInfos(p, ctx, methodT, defineRow, p.Row)
+	}
 
 	return nil
 }
